@@ -252,3 +252,66 @@ def run_clip(ctx, col, modules, rule="R-CLIP"):
                     stmt="clip", definite=True)
     if not n:
         col.ok(rule, "swcgeom.core.swc_utils.normalizer", "swcgeom/core/swc_utils/normalizer.py:1", "a negative re-based parent id stays a parent", "no clip / maximum at -1 over a parent column", stmt="clip")
+
+
+def find_splitlines(fn) -> list:
+    if isinstance(fn, ast.Lambda):
+        return []
+    return [(c, "splitlines") for c in ast.walk(fn) if isinstance(c, ast.Call) and isinstance(c.func, ast.Attribute) and c.func.attr == "splitlines"]
+
+
+def run_splitlines(ctx, col, modules, rule="R-SPLITLINES"):
+    col.rule(rule, "the reader takes its lines from the file object (universal newlines: \\n, \\r\\n, \\r), never from str.splitlines(), which also cuts at \\x0b, \\x0c, \\x1c-\\x1e, \\x85, "
+             "U+2028 and U+2029 -- characters the row regex treats as blanks inside a line (zero expected)", floor=0)
+    n = 0
+    for d in ctx.repo.all_defs():
+        if d.module.name not in modules or d.is_lambda:
+            continue
+        for node, _ in find_splitlines(d.node):
+            n += 1
+            col.bad(rule, d.qualname, d.loc(node), "a line is what the file object says a line is",
+                    f"`{norm_src(node)[:70]}` cuts the text at form feeds, vertical tabs, NEL, U+2028 ... as well: a comment or a row that contains one of them is split in two -- the "
+                    f"tail is rejected as an invalid row, or read as an extra node", stmt="splitlines", definite=True)
+    if not n:
+        col.ok(rule, "swcgeom.core.swc_utils.io", "swcgeom/core/swc_utils/io.py:1", "a line is what the file object says a line is", "no str.splitlines() in the reader", stmt="splitlines")
+
+
+def find_twice(fn) -> list:
+    """Iterable-annotated parameters that are consumed more than once (iterated, or handed to a callee) before being bound to a materialised copy"""
+    if isinstance(fn, ast.Lambda):
+        return []
+    a = fn.args
+    cand = {x.arg for x in a.posonlyargs + a.args + a.kwonlyargs if x.annotation is not None and norm_src(x.annotation).replace("Optional[", "").startswith(("Iterable", "Iterator"))}
+    out = []
+    for p in sorted(cand):
+        rebind = [st.lineno for st in ast.walk(fn) if isinstance(st, ast.Assign) and any(isinstance(t, ast.Name) and t.id == p for t in st.targets)]
+        limit = min(rebind) if rebind else 10 ** 9
+        uses = []
+        for n in ast.walk(fn):
+            if isinstance(n, (ast.For, ast.comprehension)) and isinstance(n.iter, ast.Name) and n.iter.id == p:
+                uses.append(n.iter)
+            elif isinstance(n, ast.Call) and (dotted(n.func) or "") not in ("isinstance", "len", "type", "id", "bool"):
+                for x in list(n.args) + [k.value for k in n.keywords]:
+                    if isinstance(x, ast.Name) and x.id == p:
+                        uses.append(x)
+                    if isinstance(x, ast.Starred) and isinstance(x.value, ast.Name) and x.value.id == p:
+                        uses.append(x.value)
+        uses = [u for u in uses if u.lineno <= limit]
+        if len(uses) > 1:
+            out.append((uses[1], (p, [u.lineno for u in uses])))
+    return out
+
+
+def run_twice(ctx, col, modules, rule="R-ITER2", only=None):
+    col.rule(rule, "an Iterable-annotated option is consumed once: it is iterated or handed on at most once before being bound to a list of its own (a generator / map object is a legal "
+             "argument and is empty the second time) (zero expected)", floor=0)
+    n = 0
+    for d in ctx.repo.all_defs():
+        if d.module.name not in modules or d.is_lambda or (only and d.name not in only):
+            continue
+        for node, (p, lines) in find_twice(d.node):
+            n += 1
+            col.bad(rule, d.qualname, d.loc(node), f"`{p}` is walked once", f"`{p}` (annotated Iterable) is consumed {len(lines)} times (lines {lines}) without being materialised first: for a generator / "
+                    f"iter() / map() argument the second consumer sees an empty sequence -- the requested extra columns are silently dropped, or nothing is removed", stmt=f"twice:{p}", definite=True)
+    if not n:
+        col.ok(rule, "swcgeom.core.swc_utils.io", "swcgeom/core/swc_utils/io.py:1", "Iterable options are walked once", "no Iterable parameter consumed twice", stmt="twice")
